@@ -1,4 +1,4 @@
 From Coq Require Extraction.
 From Coq Require Import ExtrOcamlBasic.
 From RM Require Import C03.Driver.
-Extraction "c03_model.ml" run_limits run_guard run_stack_access run_json_modules run_args run_fetch run_read_u64 run_process run_nearby run_info_new.
+Extraction "c03_model.ml" run_limits run_guard run_stack_access run_json_modules run_args run_fetch run_read_u64 run_process run_render run_nearby run_info_new.
